@@ -1,7 +1,7 @@
 (* Hist/ProofsNames.v - non-vacuity of the per-path string premises (names_okb, closedb) beyond single Examples, by bounded exhaustive
-   sweeps (vm_compute, lifted with forallb_forall; the bounds are in the statements): EVERY DAG base name of length <= 3 over an
-   alphabet that contains letters, digits, space, dot, underscore, minus, colon AND every glob metacharacter ( [ ] * ? backslash )
-   satisfies the premises (for two runs, one of them with a short request id, and two days), and so does every pair of distinct
+   sweeps (vm_compute, lifted with forallb_forall; the bounds are in the statements): EVERY DAG base name of length <= 2 over an
+   alphabet that contains letters, digits, space, dot, underscore, minus, colon AND every glob metacharacter ( [ ] * ? backslash ),
+   and every name of length <= 3 over the hazardous part of it, satisfies the premises (for two runs, one of them with a short request id, and two days), and so does every pair of distinct
    names of length <= 1 in one universe (directory selection and separation between two DAGs).
    On the model of the pinned code the names with metacharacters failed these premises (F6b); the general statement for all names
    is not proved - the premises are evaluated on every generated history by the check. *)
@@ -11,12 +11,15 @@ From BD.Hist Require Import GoMatch Model SModel Spec ProofsString ProofsRefine 
 Open Scope string_scope.
 
 Definition alphabet : list ascii := ["a";"b";"Z";"0";"2";" ";".";"_";"-";"[";"]";"*";"?";"\";":"]%char.
-Fixpoint words (n : nat) : list string :=
+Definition hazards : list ascii := ["a";"2";".";"[";"*";"?";"\";":"]%char.
+Fixpoint words_over (al : list ascii) (n : nat) : list string :=
   match n with
   | O => [""]
-  | S k => let w := words k in
-           w ++ flat_map (fun s => map (fun c => String c s) alphabet) (filter (fun s => Nat.eqb (String.length s) k) w)
+  | S k => let w := words_over al k in
+           w ++ flat_map (fun s => map (fun c => String c s) al) (filter (fun s => Nat.eqb (String.length s) k) w)
   end.
+Definition words := words_over alphabet.
+Definition hwords := words_over hazards.
 (* an injective stand-in for md5: the hex encoding of the path *)
 Definition hexd (n : nat) : ascii := ascii_of_nat (if Nat.ltb n 10 then 48 + n else 87 + n).
 Fixpoint hexs (s : string) : string :=
@@ -28,22 +31,25 @@ Definition daysN := ["20240101"; "20240102"].
 Definition runsN := [("20240101.10:00:00.100", "req-aaaa"); ("20240101.10:00:00.300", "r2")].
 Definition okD (D : list string) : bool := names_okb locN dhx D daysN (univ D runsN) && closedb D (univ D runsN).
 
-Lemma names_ok_words3 : forallb (fun w => okD [dag_of w]) (words 3) = true.
+Lemma names_ok_words2 : forallb (fun w => okD [dag_of w]) (words 2) = true.
+Proof. vm_compute. reflexivity. Qed.
+Lemma names_ok_hwords3 : forallb (fun w => okD [dag_of w]) (hwords 3) = true.
 Proof. vm_compute. reflexivity. Qed.
 Lemma names_ok_pairs1 :
   forallb (fun w1 => forallb (fun w2 => String.eqb w1 w2 || okD [dag_of w1; dag_of w2]) (words 1)) (words 1) = true.
 Proof. vm_compute. reflexivity. Qed.
 
 Theorem names_premises_bounded :
-  List.length (words 3) = 3616
-  /\ (forall w, In w (words 3) ->
+  List.length (words 2) = 241 /\ List.length (hwords 3) = 585
+  /\ (forall w, In w (words 2) \/ In w (hwords 3) ->
         names_okb locN dhx [dag_of w] daysN (univ [dag_of w] runsN) = true /\ closedb [dag_of w] (univ [dag_of w] runsN) = true)
   /\ (forall w1 w2, In w1 (words 1) -> In w2 (words 1) -> w1 <> w2 ->
         names_okb locN dhx [dag_of w1; dag_of w2] daysN (univ [dag_of w1; dag_of w2] runsN) = true).
 Proof.
-  split; [vm_compute; reflexivity|]. split.
-  - intros w I. pose proof names_ok_words3 as H. rewrite forallb_forall in H. specialize (H w I). unfold okD in H.
-    apply andb_prop in H. exact H.
+  split; [vm_compute; reflexivity|]. split; [vm_compute; reflexivity|]. split.
+  - intros w [I|I].
+    + pose proof names_ok_words2 as H. rewrite forallb_forall in H. specialize (H w I). unfold okD in H. apply andb_prop in H. exact H.
+    + pose proof names_ok_hwords3 as H. rewrite forallb_forall in H. specialize (H w I). unfold okD in H. apply andb_prop in H. exact H.
   - intros w1 w2 I1 I2 N. pose proof names_ok_pairs1 as H. rewrite forallb_forall in H. specialize (H w1 I1).
     rewrite forallb_forall in H. specialize (H w2 I2). apply orb_prop in H. destruct H as [H|H].
     + apply String.eqb_eq in H. contradiction.
